@@ -98,6 +98,37 @@ def normalizeT (f : CaseFns) (tableSensitive : Bool) (s : Strategy) (c : TableCt
 def defaultQualifier (f : CaseFns) (tableSensitive : Bool) (s : Strategy) (tagFirst : Bool) (i : Ident) : Ident :=
   normalizeT f tableSensitive s { TableCtx.plain with isTableTag := tagFirst } i
 
+/-! ### MappingSchema._normalize_name and its per-instance memo (sqlglot/schema.py)
+
+  A schema normalises every key it stores or looks up: table / db / catalog parts with `is_table=True` (the identifier is
+  tagged `meta["is_table"]`), column names without.  Results are memoised in `_normalized_name_cache`; the memo key must
+  contain every input the result depends on — for a role-sensitive dialect (BigQuery) that includes the ROLE. -/
+
+structure NKey where
+  name : String
+  quoted : Bool
+  isTable : Bool
+deriving DecidableEq, Repr, Inhabited
+
+/-- what `_normalize_name` computes without the memo (dialect and `normalize=True` fixed) -/
+def normName (f : CaseFns) (tableSensitive : Bool) (s : Strategy) (k : NKey) : String :=
+  (normalizeT f tableSensitive s { TableCtx.plain with isTableTag := k.isTable } ⟨k.name, k.quoted⟩).name
+
+/-- the memo key; `hasRole` = the tuple contains `is_table` (re-read from the source each run) -/
+def memoKey (hasRole : Bool) (k : NKey) : String × Bool × Bool := (k.name, k.quoted, hasRole && k.isTable)
+
+abbrev NameMemo := List ((String × Bool × Bool) × String)
+
+/-- `_normalize_name` with the memo: a hit answers from the memo, a miss computes and stores -/
+def normMemo (hasRole : Bool) (f : CaseFns) (ts : Bool) (s : Strategy) (memo : NameMemo) (k : NKey) : String × NameMemo :=
+  match memo.lookup (memoKey hasRole k) with
+  | some v => (v, memo)
+  | none => (normName f ts s k, (memoKey hasRole k, normName f ts s k) :: memo)
+
+def normMemoRun (hasRole : Bool) (f : CaseFns) (ts : Bool) (s : Strategy) : NameMemo → List NKey → List String
+  | _, [] => []
+  | m, k :: ks => let r := normMemo hasRole f ts s m k; r.1 :: normMemoRun hasRole f ts s r.2 ks
+
 /-! ### lexical visibility of CTE names (sqlglot/optimizer/scope.py: Scope.branch, Scope.__init__, _traverse_ctes)
 
   Every `Scope` holds a mapping object `cte_sources`; `Scope.branch` gives the inner scope a mapping built from the
